@@ -20,7 +20,7 @@ import tools_mutant  # noqa: E402
 RELATED = {
     "c01": ["C01", "C07"], "c02": ["C02", "C03", "C20"], "c03": ["C03", "C02"], "c04": ["C04", "C05", "C02"], "c05": ["C05", "C04"],
     "c06": ["C06"], "c07": ["C07", "C01"], "c08": ["C08"], "c09": ["C09"], "c10": ["C10"], "c11": ["C11", "C12"], "c12": ["C12", "C11"],
-    "c13": ["C13"], "c14": ["C14"], "c15": ["C15"], "c16": ["C16"], "c17": ["C17"], "c18": ["C18"], "c19": ["C19", "C01"], "c20": ["C20", "C02"],
+    "c13": ["C13"], "c14": ["C14"], "c15": ["C15"], "c16": ["C16"], "c17": ["C17"], "c18": ["C18"], "c19": ["C19", "C01", "C07"], "c20": ["C20", "C02"],
 }
 
 
@@ -102,7 +102,7 @@ def evaluate(slot, sid, tiers=("quick",)):
 
 def main():
     slot = sys.argv[1]
-    for sid in sys.argv[2:]:
+    for sid in [a for a in sys.argv[2:] if not a.startswith('--')]:
         d = os.path.join(VERIF, "seeded", sid)
         t0 = time.time()
         meta = {}
@@ -113,7 +113,17 @@ def main():
             except Exception:
                 pass
         meta["property"] = meta.get("property") or sid.split("-")[0].upper()
-        meta["confirmation"] = confirm(slot, sid)
+        old = {}
+        if os.path.exists(os.path.join(d, "meta.json")):
+            try:
+                old = json.load(open(os.path.join(d, "meta.json")))
+            except Exception:
+                old = {}
+        if "--eval-only" in sys.argv and old.get("confirmation"):
+            meta["confirmation"] = old["confirmation"]
+            meta["earlier_runs"] = (old.get("earlier_runs") or []) + [{"caught_by": old.get("caught_by"), "checks_run": [{k: r.get(k) for k in ("check", "tier", "exit", "violations")} for r in old.get("checks_run", [])]}]
+        else:
+            meta["confirmation"] = confirm(slot, sid)
         tiers = ("quick", "thorough") if "--thorough" in sys.argv else ("quick",)
         meta["checks_run"] = evaluate(slot, sid, tiers)
         meta["caught_by"] = sorted({"%s %s" % (r["check"], r["tier"]) for r in meta["checks_run"] if r.get("violations")})
